@@ -332,6 +332,7 @@ func engineTotality(ctx *Ctx) {
 			}
 		}
 	})
+	c10BigFiles(ctx, r)
 	t0 := time.Now()
 	c10DictQueries(ctx, r, budget)
 	c18AddExtra(ctx, "cpu_seconds_dictionary_queries", time.Since(t0).Seconds())
@@ -605,7 +606,16 @@ func engineTotalityCLI(ctx *Ctx) {
 			cs := map[string]interface{}{"class": f.Class, "file_hex": fmt.Sprintf("%x", vlib.Trunc(string(f.Content), 1500)), "args_quoted": fmt.Sprintf("%q", args)}
 			ctx.R.Begin(cs)
 			ctx.R.Eval(1)
-			res := h.Wtf(ctx.Wtf, nil, args...)
+			var res CLIResult
+			if ents, _ := os.ReadDir(h.Cwd); k%7 == 3 && len(ents) == 0 {
+				// the shell's working directory was removed while it was still in it (a deleted build directory)
+				res = h.RunCmd(60*time.Second, nil, append([]string{"/bin/sh", "-c", `rmdir "$PWD" && exec "$@"`, "sh", ctx.Wtf}, args...)...)
+				os.MkdirAll(h.Cwd, 0o755)
+				cs["working_directory_removed"] = true
+				ctx.R.Path("cli-runs-in-a-removed-working-directory", 1)
+			} else {
+				res = h.Wtf(ctx.Wtf, nil, args...)
+			}
 			ctx.R.Path("cli-runs-"+format, 1)
 			if strings.Contains(res.Stdout, "Found ") || strings.Contains(res.Stdout, "\"command\"") {
 				ctx.R.Path("cli-runs-with-results", 1)
@@ -617,4 +627,89 @@ func engineTotalityCLI(ctx *Ctx) {
 			}
 		}
 	}
+}
+
+// c10BigFiles: well-formed lists whose FILE is tens of MiB (a few entries with pasted logs or generated text as description, or
+// a notebook that has been merged from many machines): past 16, 32 and 64 MiB. Every entry loads, the last one faithfully, and a
+// word only the last entry holds finds it.
+func c10BigFiles(ctx *Ctx, r *rand.Rand) {
+	if ctx.Shard%8 != 4 && !(ctx.Thorough && ctx.Shard%2 == 0) {
+		return
+	}
+	mib := []int{18, 70, 34, 17, 130, 20, 66, 40}[(ctx.Shard/2)%8]
+	if !ctx.Thorough {
+		mib = []int{18, 34}[(ctx.Shard/8)%2]
+	}
+	entries := 12 + r.Intn(9)
+	per := mib << 20 / entries
+	p := filepath.Join(ctx.Scratch, "bigfile.yml")
+	cs := map[string]interface{}{"class": "wellformed-file-of-tens-of-MiB", "entries": entries, "approx_MiB": mib}
+	ctx.R.Begin(cs)
+	ctx.R.Eval(1)
+	f, err := os.Create(p)
+	if err != nil {
+		panic(err)
+	}
+	defer os.Remove(p)
+	words := []string{"alpha", "bravo", "charlie", "delta", "echo", "foxtrot", "golf", "hotel", "india", "juliett", "kilo", "lima"}
+	var lastDesc string
+	for i := 0; i < entries; i++ {
+		var sb strings.Builder
+		for sb.Len() < per {
+			sb.WriteString(words[r.Intn(len(words))])
+			sb.WriteByte(' ')
+		}
+		if i == entries-1 {
+			sb.WriteString("zyzzyva")
+			lastDesc = sb.String()
+		}
+		fmt.Fprintf(f, "- command: \"big-tool-%d --run\"\n  description: \"%s\"\n  keywords: [\"big\"]\n", i, sb.String())
+	}
+	f.Close()
+	st, _ := os.Stat(p)
+	cs["file_len"] = st.Size()
+	var db *database.Database
+	var lerr error
+	if !ctx.R.Guard("C10", "LoadDatabase", cs, func() { db, lerr = database.LoadDatabase(p) }) {
+		return
+	}
+	ctx.R.Path("files-of-tens-of-MiB", 1)
+	if st.Size() > 64<<20 {
+		ctx.R.Path("files-over-64MiB", 1)
+	}
+	if lerr != nil || db == nil {
+		ctx.R.Violate(vlib.Violation{Property: "C10", Clause: "wellformed-list-rejected", Path: "LoadDatabase",
+			Detail: fmt.Sprintf("a well-formed list of %d entries in a file of %d bytes does not load: %v", entries, st.Size(), vlib.Trunc(fmt.Sprint(lerr), 300)), Witness: cs})
+		return
+	}
+	if len(db.Commands) != entries || db.Commands[entries-1].Command != fmt.Sprintf("big-tool-%d --run", entries-1) || db.Commands[entries-1].Description != lastDesc {
+		ctx.R.Violate(vlib.Violation{Property: "C10", Clause: "wellformed-list-loaded-differently", Path: "LoadDatabase",
+			Detail: fmt.Sprintf("a well-formed list of %d entries in a file of %d bytes loads as %d entries (last entry intact: %v)", entries, st.Size(), len(db.Commands),
+				len(db.Commands) == entries && db.Commands[entries-1].Description == lastDesc), Witness: cs})
+		return
+	}
+	ctx.R.Nontriv("bigfile", mib, entries)
+	ctx.R.Guard("C10", "SearchUniversal", cs, func() {
+		rs := db.SearchUniversal("zyzzyva", database.SearchOptions{Limit: 5, AllPlatforms: true})
+		if len(rs) != 1 || rs[0].Command != &db.Commands[entries-1] {
+			ctx.R.Violate(vlib.Violation{Property: "C10", Clause: "wellformed-list-loaded-differently", Path: "LoadDatabase+SearchUniversal",
+				Detail: fmt.Sprintf("the word that only the last entry of the %d-byte file holds finds %d entries", st.Size(), len(rs)), Witness: cs})
+		}
+		db.SearchUniversal("alpha bravo", database.SearchOptions{Limit: 3, UseNLP: true, UseFuzzy: true})
+	})
+	// the same file as the notebook behind a small main database
+	ctx.R.Guard("C10", "LoadDatabaseWithPersonal", cs, func() {
+		mp := filepath.Join(ctx.Scratch, "bigfile-main.yml")
+		os.WriteFile(mp, []byte("- command: ls\n  description: list\n"), 0o644)
+		defer os.Remove(mp)
+		m, err := database.LoadDatabaseWithPersonal(mp, p)
+		if err != nil || m == nil || len(m.Commands) != entries+1 {
+			n := -1
+			if m != nil {
+				n = len(m.Commands)
+			}
+			ctx.R.Violate(vlib.Violation{Property: "C10", Clause: "wellformed-list-loaded-differently", Path: "LoadDatabaseWithPersonal",
+				Detail: fmt.Sprintf("a main list of 1 entry and a well-formed notebook of %d entries (%d bytes) load as %d entries (error: %v)", entries, st.Size(), n, err), Witness: cs})
+		}
+	})
 }
